@@ -192,6 +192,31 @@ fn check(pi: usize, input: &[u8], invert: bool, after: usize, before: usize, pas
     None
 }
 
+/// state carried over: a Searcher that has already searched another input (through the reader and the file
+/// strategy, which fill its internal multi-line buffer) must deliver for this input what a fresh one delivers
+fn check_reuse(pi: usize, input: &[u8]) -> Option<String> {
+    let m = RegexMatcherBuilder::new().multi_line(true).build(PATTERNS[pi]).unwrap();
+    let fresh = match run(&m, input, false, 0, 0, false, 1, usize::MAX) { Ok(x) => x.0, Err(e) => return Some(e) };
+    for ml in [true, false] {
+        let mut searcher = SearcherBuilder::new().line_number(true).multi_line(ml).build();
+        let other: &[u8] = b"b\na\nb\n-\n";
+        let mut r0 = Rec::new(other, usize::MAX);
+        if searcher.search_reader(&m, Chunked { data: other, pos: 0, chunk: 3 }, &mut r0).is_err() { return Some("the first search failed".into()); }
+        let mut r1 = Rec::new(input, usize::MAX);
+        if searcher.search_reader(&m, Chunked { data: input, pos: 0, chunk: 2 }, &mut r1).is_err() { return Some("the second search failed".into()); }
+        let base = if ml { fresh.clone() } else {
+            let mut s2 = SearcherBuilder::new().line_number(true).multi_line(false).build();
+            let mut r = Rec::new(input, usize::MAX);
+            let _ = s2.search_reader(&m, Chunked { data: input, pos: 0, chunk: 2 }, &mut r);
+            r.evs
+        };
+        if r1.bad_bytes || r1.evs != base {
+            return Some(format!("a searcher (multi_line={}) that searched another input before delivers {:?} (bytes {}), a fresh one {:?}", ml, r1.evs, if r1.bad_bytes { "NOT the input's" } else { "ok" }, base));
+        }
+    }
+    None
+}
+
 /// C02/C13 across strategies on inputs that start with a byte-order mark: reader and file strategies deliver
 /// what the slice strategy delivers (no model: the BOM is stripped by all three or by none)
 fn check_bom(pi: usize, tail: &[u8]) -> Option<String> {
@@ -214,7 +239,9 @@ fn check_bom(pi: usize, tail: &[u8]) -> Option<String> {
 fn hex(b: &[u8]) -> String { if b.is_empty() { "-".into() } else { b.iter().map(|x| format!("{:02x}", x)).collect() } }
 fn unhex(h: &str) -> Vec<u8> { if h == "-" { vec![] } else { (0..h.len() / 2).map(|i| u8::from_str_radix(&h[2 * i..2 * i + 2], 16).unwrap()).collect() } }
 fn report(pi: usize, input: &[u8], inv: bool, a: usize, b: usize, pt: bool, strat: usize, w: &str) {
-    if strat == 9 {
+    if strat == 8 {
+        println!("FAILING CASE multi-line/reused-searcher pattern={:?} input={:?}: {}", PATTERNS[pi], String::from_utf8_lossy(input), w);
+    } else if strat == 9 {
         println!("FAILING CASE multi-line/BOM pattern={:?} input=BOM+{:?}: {}", PATTERNS[pi], String::from_utf8_lossy(input), w);
     } else {
         println!("FAILING CASE multi-line pattern={:?} input={:?} invert={} after={} before={} passthru={} strategy={}: {}", PATTERNS[pi], String::from_utf8_lossy(input), inv, a, b, pt, STRATS[strat], w);
@@ -229,7 +256,7 @@ fn main() {
         let input = unhex(&g("VERIF_REPLAY_INPUT").unwrap());
         let n = |k: &str| g(k).and_then(|v| v.parse::<usize>().ok()).unwrap_or(0);
         let (inv, a, b, pt, st) = (n("VERIF_REPLAY_INVERT") != 0, n("VERIF_REPLAY_AFTER"), n("VERIF_REPLAY_BEFORE"), n("VERIF_REPLAY_PASSTHRU") != 0, n("VERIF_REPLAY_STRATEGY"));
-        let res = if st == 9 { check_bom(pi, &input) } else { check(pi, &input, inv, a, b, pt, st) };
+        let res = if st == 8 { check_reuse(pi, &input) } else if st == 9 { check_bom(pi, &input) } else { check(pi, &input, inv, a, b, pt, st) };
         match res {
             Some(w) => { report(pi, &input, inv, a, b, pt, st, &w); std::process::exit(1); }
             None => { println!("replayed case agrees"); return; }
@@ -263,6 +290,14 @@ fn main() {
                             break 'inp;
                         }
                     }}}
+                    if std::env::var("VERIF_ML_CLASS").is_err() {
+                        if let Some(w) = check_reuse(pi, inp) {
+                            if survey { println!("ALL REUSE pattern={:?} input={:?} {}", PATTERNS[pi], String::from_utf8_lossy(inp), w); continue; }
+                            let mut bb = best.lock().unwrap();
+                            if bb.as_ref().map_or(true, |o| (pi, ii) < (o.0, o.1)) { *bb = Some((pi, ii, w, (false, 0, 0, false, 8))); }
+                            break 'inp;
+                        }
+                    }
                     if inp.len() <= 4 && std::env::var("VERIF_ML_CLASS").is_err() {
                         if let Some(w) = check_bom(pi, inp) {
                             if survey { println!("ALL BOM pattern={:?} tail={:?} {}", PATTERNS[pi], String::from_utf8_lossy(inp), w); continue; }
